@@ -1,33 +1,49 @@
 #!/usr/bin/env python3
-"""Resolve 'both sides appended' merge conflicts by keeping both blocks (ours first). For lib/propmeta.py
-the closing brace of the first block is dropped. MANIFEST.json is regenerated afterwards."""
+"""Resolve the recurring 'both sides appended' conflicts when pulling a sub-agent's clone:
+root import files, mod lines, handler list, ext4 chain, props2 match arms, propmeta entries.
+MANIFEST.json / evidence are taken from ours (regenerated afterwards)."""
+import os
 import re
 import subprocess
-import sys
 
+CONF = re.compile(r"<<<<<<< [^\n]*\n(.*?)=======\n(.*?)>>>>>>> [^\n]*\n", re.S)
 files = subprocess.run(["git", "diff", "--name-only", "--diff-filter=U"], capture_output=True, text=True).stdout.split()
+
+
+def union(m):
+    ours, theirs = m.group(1), m.group(2)
+    seen = set(ours.split("\n"))
+    t = "\n".join(l for l in theirs.split("\n") if l not in seen or not l.strip().startswith(("import", "mod ")))
+    return ours + t
+
+
 for f in files:
-    if f == "MANIFEST.json":
+    if f == "MANIFEST.json" or f.startswith("evidence/"):
         subprocess.run(["git", "checkout", "--ours", f])
         continue
     s = open(f).read()
-    def repl(m):
-        ours, theirs = m.group(1), m.group(2)
-        if f.endswith("propmeta.py"):
-            lines = ours.rstrip("\n").split("\n")
-            if lines and lines[-1] == "}":
-                lines = lines[:-1]
-            ours = "\n".join(lines) + "\n"
-        # drop duplicate lines (imports)
-        seen = set(ours.split("\n"))
-        t = "\n".join(l for l in theirs.split("\n") if l not in seen or not l.strip().startswith(("import", "mod ")))
-        return ours + t
-    s2 = re.sub(r"<<<<<<< [^\n]*\n(.*?)=======\n(.*?)>>>>>>> [^\n]*\n", repl, s, flags=re.S)
-    open(f, "w").write(s2)
+    if f.endswith("ext4.rs"):
+        s = CONF.sub(lambda m: m.group(1).rstrip("\n") + "\n        || " + m.group(2).strip() + "\n", s)
+    elif f.endswith("props2.rs"):
+        def p2(m):
+            arms = [l for l in m.group(1).split("\n") if re.match(r'\s*"C\d+"', l)]
+            return "\n".join(arms) + ("\n" if arms else "") + m.group(2)
+        s = CONF.sub(p2, s)
+    elif f.endswith("Driver/Main.lean"):
+        def ml(m):
+            ha = re.findall(r"Drv\.\w+", m.group(1))
+            hb = re.findall(r"Drv\.\w+", m.group(2))
+            hs = ha + [h for h in hb if h not in ha]
+            return "  [" + ", ".join(hs) + "]\n"
+        s = CONF.sub(ml, s)
+    elif f.endswith("NumReal.lean"):
+        s = CONF.sub(lambda m: m.group(1), s)   # keep ours; reconcile by hand if names differ
+    else:
+        s = CONF.sub(union, s)
+    open(f, "w").write(s)
     print("resolved", f)
 
 # normalise lib/propmeta.py: every entry must be closed before the next one starts
-import os
 if os.path.exists("lib/propmeta.py"):
     lines = open("lib/propmeta.py").read().split("\n")
     out, first = [], True
